@@ -31,9 +31,11 @@ pub(crate) fn crypto_scalarmult_curve25519(
     n: &[u8; CRYPTO_SCALARMULT_CURVE25519_SCALARBYTES],
     p: &[u8; CRYPTO_SCALARMULT_CURVE25519_BYTES],
 ) {
-    let sk = Scalar::from_bytes_mod_order(clamp(n));
-    let pk = MontgomeryPoint(*p);
-    let shared_secret = sk * pk;
+    // The X25519 function multiplies by the clamped scalar itself. Reducing it
+    // modulo the group order first gives a different result for points outside
+    // the prime-order subgroup (twist points, points with a small-order
+    // component).
+    let shared_secret = MontgomeryPoint(*p).mul_clamped(*n);
 
     q.copy_from_slice(shared_secret.as_bytes());
 }
